@@ -3141,6 +3141,16 @@ func (db *DB) newGuardSet(owner uint64) *GuardSet {
 // Returns an error if no locks are supplied.
 func (db *DB) TryLocks(ctx context.Context, owner uint64, lockTypes []LockType) (bool, error) {
 	guardSet := db.CreateGuardSetIfNotExists(owner)
+
+	// A POSIX lock request over several bytes is granted entirely or not at
+	// all so restore the locks already taken by this call if a later one fails.
+	prevStates := make([]RWMutexState, 0, len(lockTypes))
+	defer func() {
+		if len(prevStates) != len(lockTypes) {
+			guardSet.restore(lockTypes, prevStates)
+		}
+	}()
+
 	for _, lockType := range lockTypes {
 		guard := guardSet.Guard(lockType)
 
@@ -3160,6 +3170,7 @@ func (db *DB) TryLocks(ctx context.Context, owner uint64, lockTypes []LockType) 
 			return false, nil
 		}
 
+		prevState := guard.State()
 		ok := guard.TryLock()
 
 		status := "OK"
@@ -3171,6 +3182,7 @@ func (db *DB) TryLocks(ctx context.Context, owner uint64, lockTypes []LockType) 
 		if !ok {
 			return false, nil
 		}
+		prevStates = append(prevStates, prevState)
 
 		// TODO(fwd): Move remote lock to lock byte on database.
 
@@ -3202,7 +3214,17 @@ func (db *DB) CanLock(ctx context.Context, owner uint64, lockTypes []LockType) (
 // Returns an error if no locks are supplied.
 func (db *DB) TryRLocks(ctx context.Context, owner uint64, lockTypes []LockType) bool {
 	guardSet := db.CreateGuardSetIfNotExists(owner)
+
+	// Grant the request entirely or not at all, see TryLocks().
+	prevStates := make([]RWMutexState, 0, len(lockTypes))
+	defer func() {
+		if len(prevStates) != len(lockTypes) {
+			guardSet.restore(lockTypes, prevStates)
+		}
+	}()
+
 	for _, lockType := range lockTypes {
+		prevState := guardSet.Guard(lockType).State()
 		ok := guardSet.Guard(lockType).TryRLock()
 
 		status := "OK"
@@ -3214,6 +3236,7 @@ func (db *DB) TryRLocks(ctx context.Context, owner uint64, lockTypes []LockType)
 		if !ok {
 			return false
 		}
+		prevStates = append(prevStates, prevState)
 	}
 	return true
 }
